@@ -59,6 +59,57 @@ def specNum (src : List Char) : String :=
 
 def specLex (src : List Char) : String := s!"L {utf8Len src}"
 
+def parseInt (s : String) : Int :=
+  match s.toList with
+  | '-' :: r => -((String.ofList r).toNat!)
+  | '+' :: r => (String.ofList r).toNat!
+  | _ => s.toNat!
+
+def parseRat (s : String) : Rat :=
+  match s.splitOn "/" with
+  | [n, d] => (parseInt n : Rat) / (parseInt d : Rat)
+  | [n] => (parseInt n : Rat)
+  | _ => 0
+
+def parseUnitKey (s : String) : UnitKey :=
+  match s.toList with
+  | 'D' :: r => .derived (String.ofList r).toNat!
+  | _ => match Base.all.find? (fun b => b.name == s) with
+    | some b => .base b
+    | none => .base .Byte
+
+/-- Canonical unit text `key:power:prefix,...` (or `-`). Entries are inserted through the
+model's own sorted insert (the harness builds the `BTreeMap` the same way). -/
+def parseUnitCanon (s : String) : Compound :=
+  if s == "-" then [] else
+  (s.splitOn ",").foldl (fun (c : Compound) e =>
+    match e.splitOn ":" with
+    | [k, p, x] =>
+      let power := parseInt p
+      if power == 0 then c else AMap.insert c (parseUnitKey k) { power := power, pfx := parseInt x }
+    | _ => c) []
+
+def unitCanon (c : Compound) : String :=
+  if c.isEmpty then "-" else
+  ",".intercalate (c.map fun e => s!"{e.1.show}:{e.2.power}:{e.2.pfx}")
+
+def cmdUnitw (src : List Char) : String :=
+  match UnitWord.parse src with
+  | some (rest, p, u) => s!"U {utf8Len rest} {p} {u.show}"
+  | none => "U NONE"
+
+def cmdFactor (a b v : String) : String :=
+  match Compound.factor (parseUnitCanon a) (parseUnitCanon b) (parseRat v) with
+  | .ok (some r) => s!"F OK {ratStr r}"
+  | .ok none => "F FALSE"
+  | .error _ => "F ERR"
+
+def cmdMul (a b n l r : String) : String :=
+  match Compound.mul true (parseUnitCanon a) (parseUnitCanon b) (parseInt n) (parseRat l) (parseRat r) with
+  | .ok (c, l', r') => s!"M {unitCanon c} {ratStr l'} {ratStr r'}"
+  | .error .conversion => "M ERR"
+  | .error .zeroPower => "PANIC zero power"
+
 /-! ### `expr`: spec-side rendering and denotation of a generated expression -/
 open Spec.Arith in
 partial def parseExpr : List String → Option (NExpr × List String)
@@ -129,6 +180,9 @@ def dispatch (line : String) : String :=
   match parts with
   | ["lex", h] => cmdLex (hexDecode h) ++ "\t" ++ specLex (hexDecode h)
   | "expr" :: toks => cmdExpr toks
+  | ["unitw", h] => cmdUnitw (hexDecode h)
+  | ["factor", a, b, v] => cmdFactor a b v
+  | ["mul", a, b, n, l, r] => cmdMul a b n l r
   | ["num", h] => cmdNum (hexDecode h) ++ "\t" ++ specNum (hexDecode h)
   | cmd :: _ => s!"? unknown command {cmd}"
   | [] => "?"
